@@ -393,7 +393,7 @@ def build_ops(ck):
     rng = ck.rng
     quick = ck.tier == "quick"
     ops = []   # (string, family, expected) expected: ("ok", R, t) | "reject" | "index" | None (non-ASCII: oracle only)
-    for _ in range(140 if quick else 3000):
+    for _ in range((140 if quick else 3000) * getattr(ck, "widen", 1)):
         rows = [gen_row(rng) for _ in range(3)]
         s = ",".join(r[0] for r in rows)
         if rng.random() < 0.15:
@@ -697,6 +697,110 @@ def base_documents():
     return docs
 
 
+# ======================================================================================
+# differential stream: the regular-expression matcher of the model (DS.Rx) against Python's `re`
+# ======================================================================================
+
+RX_ATOMS = ["a", "b", "x", "1", r"\.", r"\+", "-", "/", r"\d", ".", "[ab]", "[^a]", "[a-c]", r"[\d.]", "[+-]", "[xyz]", r"[^\d+]", "[A-C1]", r"\n", "[^\n]"]
+RX_SUBJECT = "abcxyzXYAB+-./012 \n"
+
+
+def gen_rx(rng, depth=0):
+    k = rng.random()
+    if depth >= 3 or k < 0.35:
+        r = rng.choice(RX_ATOMS)
+    elif k < 0.6:
+        r = "".join(gen_rx(rng, depth + 1) for _ in range(rng.randrange(2, 4)))
+    elif k < 0.78:
+        r = "(?:" + "|".join(gen_rx(rng, depth + 1) if rng.random() < 0.9 else "" for _ in range(rng.randrange(2, 4))) + ")"
+    elif k < 0.86:
+        r = "(" + gen_rx(rng, depth + 1) + ")"
+    else:
+        r = rng.choice(["^", "$", r"\Z", r"\A"]) if depth else gen_rx(rng, depth + 1)
+    if rng.random() < 0.35 and r not in ("^", "$", r"\Z", r"\A", ""):
+        if len(r) > 1 and not (r.startswith(("(", "[")) and r.endswith((")", "]")) and r.count("(") <= 1 + r.count("(?:")) and not (len(r) == 2 and r[0] == "\\"):
+            r = "(?:" + r + ")"
+        r += rng.choice("?*+")
+    return r
+
+
+def rx_compare(pairs):
+    """[(pattern text, subject)] -> (disagreements, n compared, n skipped): match at every position, search, split"""
+    import re
+
+    from translate import src_symop
+    lines, meta = [], []
+    skipped = 0
+    for pat, subj in pairs:
+        try:
+            rc = re.compile(pat)
+            tree, _ = src_symop.convert_pattern(pat)
+        except (re.error, src_symop.pysrc.Untranslatable, RecursionError):
+            skipped += 1
+            continue
+        words = " ".join(src_symop.re_to_words(tree))
+        hx = "x" + subj.encode("ascii").hex()
+        for pos in range(len(subj) + 1):
+            m = rc.match(subj, pos)
+            lines.append("rx.match %s %d %s" % (hx, pos, words))
+            meta.append((pat, subj, "match@%d" % pos, "none" if m is None else "%d %d" % m.span()))
+        m = rc.search(subj)
+        lines.append("rx.search %s %s" % (hx, words))
+        meta.append((pat, subj, "search", "none" if m is None else "%d %d" % m.span()))
+        try:
+            st, keep = src_symop.split_form(pat)
+        except src_symop.pysrc.Untranslatable:
+            st = None
+        if st is not None:
+            ps = rc.split(subj)
+            lines.append("rx.split %s %d %s" % (hx, 1 if keep else 0, " ".join(src_symop.re_to_words(st))))
+            meta.append((pat, subj, "split", "%d" % len(ps) + "".join(" x" + p.encode("ascii").hex() for p in ps)))
+    out = common.driver(lines) if lines else []
+    bad = []
+    for (pat, subj, op, want), got in zip(meta, out):
+        if got == "outside" and op == "split":
+            continue            # a pattern that can match the empty text: split is outside the modelled subset
+        if got != want:
+            bad.append({"pattern": pat, "subject": subj, "op": op, "python": want, "model": got})
+    return bad, len(lines), skipped
+
+
+def rx_stream(ck):
+    rng = ck.rng
+    quick = ck.tier == "quick"
+    pats = [r"(?i)([+-]?[xyz])", r"[+-]?(?:\d+\.?\d*|\.\d+)(?:/(?:\d+\.?\d*|\.\d+))?", r"[-+]?(\d+(\.\d*)?|\.\d+)([eE][-+]?\d+)?", r"^[+-]?\d+$", r"(?i)(?:a|B)+\Z"]
+    # the patterns of the tree under examination, whatever they are now
+    try:
+        import re
+        src = open(os.path.join(common.REPO, "src", "diffpy", "structure", "parsers", "p_cif.py"), encoding="utf-8").read()
+        pats += [p for q, p in re.findall(r"""re\.(?:compile|split)\(\s*r?(["'])((?:[^"'\\]|\\.)*)\1""", src)]
+    except OSError:
+        pass
+    n = 250 if quick else 4000
+    for _ in range(n):
+        p = gen_rx(rng)
+        if rng.random() < 0.2:
+            p = "(?i)" + p
+        if rng.random() < 0.1:
+            p = "(" + p + ")"
+        pats.append(p)
+    pairs = []
+    for p in pats:
+        for _ in range(4 if quick else 6):
+            subj = "".join(rng.choice(RX_SUBJECT) for _ in range(rng.randrange(0, 9)))
+            pairs.append((p, subj))
+        pairs.append((p, "1/2+X-y3.5/.25-1./4" if "d" in p else "ab\n"))
+    bad, ncmp, skipped = rx_compare(pairs)
+    ck.coverage["evaluations"] += ncmp
+    ck.coverage["traces_validated_against_impl"] += ncmp
+    ck.coverage["rx_stream"] = {"patterns": len(pats), "comparisons": ncmp, "pairs_outside_subset": skipped, "disagreements": len(bad)}
+    if bad:
+        b = min(bad, key=lambda d: (len(d["pattern"]), len(d["subject"])))
+        ck.fail("model:rx:%s" % b["op"].split("@")[0], "DS.Rx (%s) of %r on %r gives %r, Python re gives %r [%d disagreement(s)]" % (
+            b["op"], b["pattern"], b["subject"], b["model"], b["python"], len(bad)),
+            dict(b, kind="rx", theorem="differential stream rx.* (the matcher the source tie DS.Props.SrcSymOp rests on)"), no_failing_input=True)
+
+
 def run(ck):
     sys.path.insert(0, VERIF)
     from translate import sinks as tsinks
@@ -704,6 +808,9 @@ def run(ck):
     GEN = os.path.join(LEAN, "DS", "Gen")
     rep = tsinks.main(GEN, common.REPO)
     ok, info = ck.lean_obligations("DS.Props.C17")
+    # `parseSymOp` IS the current source of getSymOp / _symop_constant (transliterated by translate/src_symop.py, T18)
+    ck.symop_tie = ck.source_tie("DS.Props.SrcSymOp", groups=("symop",))
+    ck.widen = 1 if ck.symop_tie[0] else 4      # a broken tie: four times as many operator strings
     ck.notes.append("sinks: %d reachable modules, %d functions, %d on the parse path, %d sinks; text/ast cross-check %s" % (
         len(rep["reachable_modules"]), rep["n_functions"], rep["n_on_path"], len(rep["sinks"]), rep["crosscheck_ok"]))
     wd = os.path.join(common.WORK, "c17_%d" % os.getpid())
@@ -779,6 +886,11 @@ def _run(ck, rep, ok, info, wd):
                 fail("symop:value", "getSymOp(%r) -> %r, expected R=%r t=%r" % (s[:120], real, exp[1], [str(x) for x in exp[2]]),
                         {"kind": "oracle", "call": "getSymOp", "input": s, "outcome": real, "expected": [exp[1], [str(x) for x in exp[2]]]})
                 continue
+        # the translation is folded into [0, 1) (`t -= floor(t)`; 1.0 itself only by float rounding of a tiny negative sum)
+        if real[0] == "ok" and not all(0.0 <= x <= 1.0 for x in real[2]):
+            fail("symop:range", "getSymOp(%r) -> translation %r outside [0, 1)" % (s[:120], real[2]),
+                 {"kind": "oracle", "call": "getSymOp", "input": s, "outcome": real, "expected_kind": "range"})
+            continue
         # model vs implementation
         if i in model:
             ck.coverage["traces_validated_against_impl"] += 1
@@ -814,6 +926,8 @@ def _run(ck, rep, ok, info, wd):
         n, what, rpl, nfi = min(lst, key=lambda t: t[0])
         rpl = dict(rpl, ncases=len(lst))
         ck.fail(key, "%s [%d case(s) with this key]" % (what, len(lst)), rpl, no_failing_input=nfi)
+    rx_stream(ck)
+    ck.tie_verdict(ck.symop_tie[0], ck.symop_tie[1], "p_cif.py getSymOp, _symop_constant, symvec and the two regular expressions")
     # leftovers in the working directory = effects
     left = res.get("leftover", []) + os.listdir(wd)
     if left:
@@ -838,6 +952,9 @@ def _run(ck, rep, ok, info, wd):
                               {"doc": docs[0]["fmt"], "payload": docs[0]["payload"], "pos": docs[0]["pos"], "real": res["docs"][0][0]}]
     ck.coverage["trusted_base"] += ["translate/sinks.py (ast sink scan, name-based call graph, conservative taint; cross-checked by a text scan)",
                                     "reviewed allow-list in DS/Props/C17.lean (4 entries)", "CPython audit events (PEP 578)"]
+    ck.coverage["trusted_base"] += ["translate/src_symop.py (strict statement templates of getSymOp/_symop_constant; patterns through CPython's re._parser)",
+                                    "DS.Rx.mK as the reading of Python `re` on ASCII text (differential stream rx.*)",
+                                    "DS.PyStr primitives as the reading of str/list/dict/float operations, floats read as exact fractions"]
     ck.assumptions += ["(b) shows absence of syntactic paths to sinks, not semantic non-interference; PyCifRW and numpy are outside the scan and covered by the audit hook only",
                        "model of getSymOp is ASCII-only; Unicode digits accepted by Python's \\d are exercised by the audit oracle only",
                        "literals longer than 20 digits (float overflow to inf/nan) are not generated"]
@@ -845,6 +962,16 @@ def _run(ck, rep, ok, info, wd):
 
 def replay(path):
     r = json.load(open(path))
+    if r.get("kind") == "source-tie" and r.get("module") == "DS.Props.SrcSymOp":
+        ck = common.Check("C17", "quick", 0)
+        ok, info = ck.source_tie("DS.Props.SrcSymOp", groups=("symop",))
+        unt = {k: v["untranslatable"] for k, v in info.get("translator", {}).items() if isinstance(v, dict) and v.get("untranslatable")}
+        print("source tie DS.Props.SrcSymOp:", "holds" if ok else "broken: theorems %r, not translatable %r" % (info.get("broken_theorems"), unt))
+        return 0 if ok else 1
+    if r.get("kind") == "rx":
+        bad = rx_compare([(r["pattern"], r["subject"])])[0]
+        print("rx disagreements:", bad[:3])
+        return 1 if bad else 0
     wd = os.path.join(common.WORK, "c17_replay_%d" % os.getpid())
     shutil.rmtree(wd, ignore_errors=True)
     os.makedirs(wd)
@@ -866,6 +993,8 @@ def replay(path):
         bad = bool(viol) or bool(os.listdir(wd))
         if r.get("kind") == "oracle" and r.get("call") == "getSymOp":
             bad = bad or real[0] != r.get("expected_kind", "SFE") and r["key"].startswith("symop:accepts")
+            if r["key"] == "symop:range":
+                bad = bad or (real[0] == "ok" and not all(0.0 <= x <= 1.0 for x in real[2]))
         return 1 if bad else 0
     finally:
         shutil.rmtree(wd, ignore_errors=True)
